@@ -1,3 +1,4 @@
 SPECIFICATION TSpec
 CONSTANTS Base = 256
+VIEW View
 CHECK_DEADLOCK FALSE
